@@ -116,6 +116,44 @@ def run_pylogix(job):
             "mixed": False, "final": srv.dev.get_mem(), "setting": ["pylogix", multi], "pattern": [0], "exc": exc, "sends": 0}
 
 
+def run_lists(job):
+    """the cpppo client's List Identity / Services / Interfaces requests against the live simulator: the parsed replies are the
+    simulator's identity and service as the specification states them (ServerOps!SimIdentity, SimServices)"""
+    from cpppo.server.enip import client
+    from .. import clientlib
+    cfg, want = job
+    srv = clientlib.server(dict(cfg, budget=488))
+    clientlib.wait_idle()
+    out = []
+    idt, svc = want["identity"], want["services"]
+    exp = {"list_identity": {"version": idt["version"], "sin_family": idt["family"], "sin_port": idt["port"], "sin_addr": ".".join(str(o) for o in idt["addr"]),
+                             "vendor_id": idt["vendor"], "device_type": idt["devtype"], "product_code": idt["product"], "product_revision": idt["revision"],
+                             "status_word": idt["status"], "serial_number": int.from_bytes(bytes(bytearray(idt["serial"])), "little"),
+                             "product_name": bytes(bytearray(idt["name"])).decode("iso-8859-1"), "state": idt["state"]},
+           "list_services": {"version": svc["version"], "capability": svc["capability"], "service_name": bytes(bytearray(svc["name"])).decode("iso-8859-1")}}
+    try:
+        with client.connector(host=srv.address[0], port=srv.address[1], timeout=5.0) as conn:
+            for meth, key in (("list_identity", "identity_object"), ("list_services", "communications_service"), ("list_interfaces", None), ("list_identity", "identity_object")):
+                getattr(conn, meth)(timeout=5.0)
+                rsp, ela = client.await_response(conn, timeout=5.0)
+                if rsp is None:
+                    out.append("%s: no reply" % meth)
+                    continue
+                cpf = rsp.enip.CIP[meth].CPF
+                if key is None:
+                    if cpf.get("count", len(cpf.get("item") or [])) != 0:
+                        out.append("list_interfaces: %r" % dict(cpf))
+                    continue
+                items = cpf.get("item") or []
+                got = dict(items[0][key]) if len(items) == 1 and key in items[0] else {}
+                bad = {k: (got.get(k), v) for k, v in exp[meth].items() if got.get(k) != v}
+                if bad:
+                    out.append("%s: (got, specified) %r" % (meth, bad))
+    except Exception as exc:
+        out.append("exception %r" % exc)
+    return out
+
+
 def run_raw(job):
     """spec-encoded frames written raw to the live simulator; replies collected by length-prefixed framing"""
     from .. import clientlib, vsock
@@ -191,6 +229,13 @@ def main(ctx):
         ctx.machinery.append("interop emission incomplete")
         return
     cfg, mem0 = c[0]["cfg"], c[0]["mem0"]
+    lw = [j for j in res.json if j.get("k") == "lists"]
+    if not lw:
+        ctx.machinery.append("no identity / services record emitted")
+        return
+    for prob in core.in_child(run_lists, (cfg, lw[0])):      # (in a child: the main process must not own a live simulator when it forks its workers)
+        ctx.violation("client_list_requests", {"lists": True, "problem": prob, "specified": lw[0]}, what="cpppo client List* request: " + prob)
+    ev.case(key=("lists",), nontrivial=True)
     ev.rule = ("cases: pylogix sessions: every list of <= 2 operations over a 20-operation basis (sampled in quick) plus random "
                "sessions of 5-10 operations with multi-tag reads; raw sessions: Register followed by 1-3 spec-encoded SendRRData "
                "frames (bare and Unconnected-Send-wrapped).  Non-trivial: the session contains a write followed by a read, an "
